@@ -133,6 +133,8 @@ def main():
     ap.add_argument("--out", default="")
     ap.add_argument("--pad", type=int, default=3)
     ap.add_argument("--limit", type=int, default=0)
+    ap.add_argument("--save", action="store_true", help="store the outcome under mutants/sweep/<prop>.json (regression reference)")
+    ap.add_argument("--verify", action="store_true", help="re-run only the variants recorded as killed in mutants/sweep/<prop>.json; they must still be killed")
     a = ap.parse_args()
     prop = a.prop
     P = [json.loads(l) for l in open(os.path.join(V, "properties.jsonl"))]
@@ -170,6 +172,12 @@ def main():
                          "new": (ed[ln - 1] or "<deleted>").rstrip("\n") if (ln - 1) in ed else ""})
     if a.limit:
         muts = muts[:a.limit]
+    ref_path = os.path.join(V, "mutants", "sweep", prop + ".json")
+    if a.verify:
+        ref = json.load(open(ref_path))
+        want = set((r["file"], r["orig"], r["op"], r["new"]) for r in ref if r["status"] == "killed")
+        muts = [m for m in muts if (m["file"], m["orig"].strip(), m["op"], m["new"].strip()) in want]
+        print("verify: %d of %d recorded kills regenerated" % (len(muts), len(want)))
     print("%s: %d variants over %s" % (prop, len(muts), ", ".join("%s:%d-%d" % t for t in targets)), flush=True)
     os.makedirs(WORK, exist_ok=True)
     slots = queue.Queue()
@@ -221,6 +229,16 @@ def main():
     print("SUMMARY %s %s" % (prop, json.dumps(cnt)))
     out = a.out or os.path.join(WORK, prop + ".json")
     json.dump(results, open(out, "w"), indent=1)
+    if a.save:
+        os.makedirs(os.path.dirname(ref_path), exist_ok=True)
+        json.dump([dict(file=r["file"], line=r["line"], op=r["op"], orig=r["orig"], new=r["new"], status=r["status"], rules=r["rules"]) for r in results],
+                  open(ref_path, "w"), indent=0)
+    if a.verify:
+        lost = [r for r in results if r["status"] != "killed"]
+        for r in lost:
+            print("REGRESSION %s:%d %s %s => %s now %s" % (r["file"], r["line"], r["op"], r["orig"][:60], r["new"][:60], r["status"]))
+        print("verify: %d kills kept, %d lost" % (len(results) - len(lost), len(lost)))
+        sys.exit(1 if lost else 0)
     print("survivors:")
     for r in results:
         if r["status"] in ("survived", "broken"):
